@@ -1,14 +1,14 @@
 SPECIFICATION SpecMC
 CONSTANTS
   Libs = {"A", "B", "C"}
-  NT = 2
-  Statuses = {"absent", "fwd", "fwdg", "def", "defg"}
-  Statuses2 = {"absent", "defg"}
+  NT = 1
+  Statuses = {"absent", "defg"}
+  Statuses2 = {}
   Modes = {"db", "mod"}
-  LookupKinds = {"tn", "tsn", "ttn", "mn", "en", "esn"}
+  LookupKinds = {"ttn", "tn", "esn"}
   FileBase = 3
   RecordHist = TRUE
-  Faults = {"ok"}
+  Faults = {"ok", "missing", "stale"}
   DumpKinds = {"C", "P", "B"}
 INVARIANT TypeOK
 INVARIANT FilesWellFormed
